@@ -161,6 +161,47 @@ class Tree:
         return [cps(y), cps(fy), cps(mo), cps(d)], wy, {'year': y, 'fullyear': fy, 'month': mo, 'day': d}
 
 
+def fingerprints(T, which):
+    """Normalised-AST fingerprints of the Python functions the model mirrors (recorded in the evidence; a changed
+    fingerprint never fails a check by itself)."""
+    import ast
+    import hashlib
+    import inspect
+    import textwrap
+    U = T.utilities
+    en_cfg = type(T.time_parser().config)
+    table = {
+        'time': [('BaseTimeParser.match_to_time', T.base_time.BaseTimeParser.match_to_time),
+                 ('BaseTimeParser.parse_basic_regex_match', T.base_time.BaseTimeParser.parse_basic_regex_match),
+                 ('EnglishTimeParserConfiguration.adjust_by_prefix', en_cfg.adjust_by_prefix),
+                 ('EnglishTimeParserConfiguration.adjust_by_suffix', en_cfg.adjust_by_suffix),
+                 ('BaseDateTimeParser.merge_date_and_time', T.base_datetime.BaseDateTimeParser.merge_date_and_time),
+                 ('DateTimeFormatUtil.to_pm', U.DateTimeFormatUtil.to_pm),
+                 ('DateTimeFormatUtil.all_str_to_pm', U.DateTimeFormatUtil.all_str_to_pm),
+                 ('DateTimeFormatUtil.short_time', U.DateTimeFormatUtil.short_time),
+                 ('DateTimeFormatUtil.luis_time', U.DateTimeFormatUtil.luis_time),
+                 ('DateTimeFormatUtil.format_time', U.DateTimeFormatUtil.format_time)],
+        'date': [('BaseDateParser.match_to_date', T.base_date.BaseDateParser.match_to_date),
+                 ('DateUtils.generate_dates', U.DateUtils.generate_dates),
+                 ('DateUtils.safe_create_from_value', U.DateUtils.safe_create_from_value),
+                 ('DateUtils.is_valid_date', U.DateUtils.is_valid_date),
+                 ('DateTimeFormatUtil.luis_date', U.DateTimeFormatUtil.luis_date),
+                 ('DateTimeFormatUtil.format_date', U.DateTimeFormatUtil.format_date)],
+        'merged': [('BaseMergedParser._date_time_resolution', T.base_merged.BaseMergedParser._date_time_resolution),
+                   ('BaseMergedParser._generate_from_resolution', T.base_merged.BaseMergedParser._generate_from_resolution),
+                   ('BaseMergedParser._resolve_ampm', T.base_merged.BaseMergedParser._resolve_ampm)],
+    }
+    out = {}
+    for group in which:
+        for name, fn in table[group]:
+            try:
+                src = textwrap.dedent(inspect.getsource(fn))
+                out[name] = hashlib.sha256(ast.dump(ast.parse(src)).encode()).hexdigest()[:12]
+            except Exception as e:
+                out[name] = 'unavailable: %s' % type(e).__name__
+    return out
+
+
 def plain_time_fields(hour='', minute='', sec='', desc=None, pfx='', sfx=''):
     """Model inputs of a digit clock time with a plain description (am / pm / none), no prefix / suffix regex
     outcome: used for model predictions at pipeline level."""
